@@ -52,7 +52,7 @@ CONTRACTS = [
              raises={"ConductorError+": []},
              trusted_reason="TaskType.from_raw_task dispatches on the task type and builds the task with exactly this identifier and this dependency list (constructor field assignments)"),
     Contract(F + "::TaskIndex._materialize_raw_task", params={"identifier": "TaskIdentifier", "raw_task": "Dict[str,Seq[str]]#rawin"},
-             returns="TaskType", props=["C02", "C20", "C14"],
+             returns="TaskType", props=["C02", "C20", "C14", "C09"],
              locals={"task_deps": "List[TaskIdentifier]#mdeps", "task_deps_set": "Set[TaskIdentifier]#mdset"},
              modifies=["$alloc", "ConductorError.file_context_set", "ConductorError.extra_context_set", "new@rawin"],
              ensures=[
